@@ -6,12 +6,15 @@ use std::collections::BTreeSet;
 use std::path::{Path, PathBuf};
 
 #[derive(Clone, Debug)]
-struct C { tmp: u64, n: usize, c: usize, comp: Option<u32>, fail: u64, fail_at: usize, consume: usize, order: u64, obs_at: usize, border: u64 }
+struct C { tmp: u64, n: usize, c: usize, comp: Option<u32>, fail: u64, fail_at: usize, consume: usize, order: u64, obs_at: usize, border: u64,
+    /// 0: items are u64; k > 0: items are (u64, String of k bytes) — records that own heap data, so that a run is megabytes on disk
+    heavy: usize }
 
 fn enc(c: &C) -> Vec<String> {
     let mut v = vec![c.tmp.to_string(), c.n.to_string(), c.c.to_string()];
     match c.comp { None => v.push("0".into()), Some(l) => { v.push("1".into()); v.push(l.to_string()); } }
     v.extend([c.fail.to_string(), c.fail_at.to_string(), c.consume.to_string(), c.order.to_string(), c.obs_at.to_string(), c.border.to_string()]);
+    if c.heavy != 0 { v.push(c.heavy.to_string()); }
     v
 }
 fn dec(t: &[String]) -> Option<C> {
@@ -19,9 +22,9 @@ fn dec(t: &[String]) -> Option<C> {
     let mut n = || -> Option<u64> { it.next()?.parse().ok() };
     let tmp = n()?; let nn = n()? as usize; let c = n()? as usize;
     let comp = if n()? != 0 { Some(n()? as u32) } else { None };
-    Some(C { tmp, n: nn, c, comp, fail: n()?, fail_at: n()? as usize, consume: n()? as usize, order: n()?, obs_at: n()? as usize, border: n().unwrap_or(0) })
+    Some(C { tmp, n: nn, c, comp, fail: n()?, fail_at: n()? as usize, consume: n()? as usize, order: n()?, obs_at: n()? as usize, border: n().unwrap_or(0), heavy: n().unwrap_or(0) as usize })
 }
-fn valid(c: &C) -> bool { c.n.div_ceil(c.c.max(1)) <= 150 && c.obs_at < c.n.max(1) && (c.fail != 1 || c.obs_at < c.fail_at) }
+fn valid(c: &C) -> bool { c.n.div_ceil(c.c.max(1)) <= 150 && c.n * c.heavy <= 64 << 20 && c.obs_at < c.n.max(1) && (c.fail != 1 || c.obs_at < c.fail_at) }
 
 fn listing(d: &Path) -> BTreeSet<(String, bool)> {
     let mut s = BTreeSet::new();
@@ -41,9 +44,32 @@ fn fds_under(d: &Path) -> usize {
     n
 }
 
+/// open descriptors (fd number, target) that refer to a file-system path
+fn fd_paths() -> BTreeSet<(String, String)> {
+    let mut s = BTreeSet::new();
+    if let Ok(rd) = std::fs::read_dir("/proc/self/fd") {
+        for e in rd.flatten() {
+            if let Ok(t) = std::fs::read_link(e.path()) {
+                let t = t.to_string_lossy().to_string();
+                if t.starts_with('/') && !t.starts_with("/dev/") && !t.starts_with("/proc/") && !t.starts_with("/sys/") { s.insert((e.file_name().to_string_lossy().to_string(), t)); }
+            }
+        }
+    }
+    s
+}
+/// descriptors opened since `before` whose file (possibly already unlinked) is not under `d`
+fn fds_outside(d: &Path, before: &BTreeSet<(String, String)>) -> usize {
+    fd_paths().difference(before).filter(|(_, t)| !Path::new(t).starts_with(d)).count()
+}
+
 /// runs in a child process: `TMPDIR` points to a fresh directory
 fn child(t: &[String]) -> String {
     let Some(c) = dec(t) else { return "abort".into() };
+    if c.heavy == 0 { child_typed::<u64>(&c, |i, _| ((i * 7919) % 1000) as u64, |x| *x) }
+    else { child_typed::<(u64, String)>(&c, |i, k| (((i * 7919) % 1000) as u64, "x".repeat(k)), |x| x.0) }
+}
+
+fn child_typed<T: serde::Serialize + serde::de::DeserializeOwned + Send>(c: &C, mk: fn(usize, usize) -> T, key: fn(&T) -> u64) -> String {
     let tdir = PathBuf::from(std::env::var("TMPDIR").unwrap_or_else(|_| "/nonexistent".into()));
     let base = tdir.parent().unwrap().to_path_buf();
     let explicit = base.join("d");
@@ -57,6 +83,8 @@ fn child(t: &[String]) -> String {
     let (d, other) = if c.tmp == 1 { (explicit.clone(), tdir.clone()) } else { (tdir.clone(), explicit.clone()) };
     let base0 = listing(&d);
     let other0 = count_recursive(&other);
+    let fds0 = fd_paths();
+    let fds_out = std::cell::Cell::new(0usize);
     // the builder's setters are applied in the order given by the case (a permutation index): the
     // configuration must not depend on the order of the calls
     let mut b = ExternalSorterBuilder::new();
@@ -86,6 +114,7 @@ fn child(t: &[String]) -> String {
             let inside: usize = top.iter().map(|x| count_recursive(&d.join(&x.0))).sum();
             during.set(Some((top.len(), inside, fds_under(&d))));
             other_during.set(count_recursive(&other).abs_diff(other0));
+            fds_out.set(fds_out.get().max(fds_outside(&d, &fds0)));
         }
         if c.fail == 3 && i == c.fail_at {
             // exhaust the descriptor table: the next chunk file cannot be created
@@ -97,12 +126,12 @@ fn child(t: &[String]) -> String {
                 libc::setrlimit(libc::RLIMIT_NOFILE, &r);
             }
         }
-        ((i * 7919) % 1000) as u64
+        mk(i, c.heavy)
     });
     let fail = c.fail; let fail_at = c.fail_at;
-    let cmp = |a: &u64, b: &u64| {
+    let cmp = |a: &T, b: &T| {
         if fail == 2 && calls.fetch_add(1, std::sync::atomic::Ordering::SeqCst) == fail_at { panic!("comparator panics"); }
-        a.cmp(b)
+        key(a).cmp(&key(b))
     };
     let res = std::panic::catch_unwind(std::panic::AssertUnwindSafe(|| sorter.sort_by(input, &cmp)));
     if c.fail == 3 { unsafe { let mut r = libc::rlimit { rlim_cur: 0, rlim_max: 0 }; libc::getrlimit(libc::RLIMIT_NOFILE, &mut r); r.rlim_cur = r.rlim_max.min(4096); libc::setrlimit(libc::RLIMIT_NOFILE, &r); } }
@@ -111,6 +140,8 @@ fn child(t: &[String]) -> String {
         Err(_) => { drop(sorter); 2 }
         Ok(Err(_)) => { drop(sorter); 1 }
         Ok(Ok(mut it)) => {
+            // the runs are open now (owned by the iterator): none of them may live outside the configured directory
+            fds_out.set(fds_out.get().max(fds_outside(&d, &fds0)));
             // the comparator may also panic while merging: unwinding out of next() must not leak either
             let r = std::panic::catch_unwind(std::panic::AssertUnwindSafe(|| {
                 let mut y = 0usize;
@@ -128,7 +159,7 @@ fn child(t: &[String]) -> String {
     let other_new = count_recursive(&other).abs_diff(other0);
     let (taken, top, inside, fds) = match during.get() { Some((a, b, f)) => (1, a, b, f), None => (0, 0, 0, 0) };
     let other_while_alive = other_after_build.max(other_during.get());
-    format!("{} {} {} {} {} {} {} {} {} {} {} {} {}", base0.len(), new_dirs, new_files, taken, top, inside, fds, after_new, after_missing, other_new, result, yielded, other_while_alive)
+    format!("{} {} {} {} {} {} {} {} {} {} {} {} {} {}", base0.len(), new_dirs, new_files, taken, top, inside, fds, after_new, after_missing, other_new, result, yielded, other_while_alive, fds_out.get())
 }
 
 static CASE_NO: std::sync::atomic::AtomicUsize = std::sync::atomic::AtomicUsize::new(0);
@@ -164,8 +195,19 @@ fn gen(rng: &mut Rng, tier: Tier) -> Vec<Case> {
         let obs_at = (c_size * rng.range(1, 2) as usize).min(n - 1);
         let fail_at = match fail { 1 => rng.range(obs_at as u64 + 1, n as u64 + 3) as usize, 2 => rng.below(3 * n as u64) as usize, 3 => obs_at, _ => 0 };
         let c = C { tmp: rng.below(2), n, c: c_size, comp: if rng.chance(1, 3) { Some(*rng.pick(&[0u32, 1, 9])) } else { None }, fail, fail_at,
-            consume: match rng.below(4) { 0 => 0, 1 => n + 5, _ => rng.below(n as u64) as usize }, order: rng.below(2), obs_at, border: rng.below(24) };
+            consume: match rng.below(4) { 0 => 0, 1 => n + 5, _ => rng.below(n as u64) as usize }, order: rng.below(2), obs_at, border: rng.below(24), heavy: 0 };
         if valid(&c) { out.push(Case::new("lifetime", enc(&c))); }
+    }
+    // records that own heap data: runs of 1-12 MiB on disk (a threshold on the in-memory or on-disk size of a
+    // run is invisible to kilobyte-sized sorts)
+    let n_heavy = match tier { Tier::Quick => 3, Tier::Thorough => 16 };
+    for i in 0..n_heavy {
+        let heavy = *rng.pick(&[512usize, 2048, 3000]);
+        let c_size = *rng.pick(&[2048usize, 4096]);
+        let n = c_size + rng.range(1, c_size as u64) as usize;
+        let c = C { tmp: if i % 3 == 2 { 0 } else { 1 }, n, c: c_size, comp: if i % 2 == 1 { Some(1) } else { None }, fail: 0, fail_at: 0,
+            consume: if rng.chance(1, 2) { n + 5 } else { rng.below(n as u64) as usize }, order: rng.below(2), obs_at: c_size, border: rng.below(24), heavy };
+        if valid(&c) { out.push(Case::new("heavy", enc(&c))); }
     }
     out
 }
@@ -173,8 +215,8 @@ fn gen(rng: &mut Rng, tier: Tier) -> Vec<Case> {
 pub fn prop() -> PropDef {
     PropDef {
         id: "C15",
-        rule: "corpus, then lifetime scripts run in a child process whose TMPDIR is a fresh directory: explicit or default tmp dir (both pre-populated with a file and a sub-directory), the builder's four setters called in every order, inputs of c+1..8c records for chunk sizes c in {1,2,3,10,50}, with or without compression; the input iterator snapshots the directory (and /proc/self/fd) after at least one chunk exists; then either a normal sort followed by draining / dropping after k items / never consuming, with the iterator dropped before or after the sorter, or a panic raised by the input iterator at item j, a panic raised by the comparator at its m-th call, or sort_by returning an error (descriptor limit lowered mid-sort); listing compared before build, after build, during the sort and after the drops. Non-trivial: the during-snapshot was taken with >= 1 chunk created. Distinct = distinct input token sequence.",
-        observable: "entries created under the configured directory by build(), during sort_by (top level, inside the temporary directory), after the drops (new and missing entries), entries created under the other temporary directory, result of sort_by",
+        rule: "corpus, then lifetime scripts run in a child process whose TMPDIR is a fresh directory: explicit or default tmp dir (both pre-populated with a file and a sub-directory), the builder's four setters called in every order, inputs of c+1..8c records for chunk sizes c in {1,2,3,10,50}, with or without compression; the input iterator snapshots the directory (and /proc/self/fd) after at least one chunk exists; then either a normal sort followed by draining / dropping after k items / never consuming, with the iterator dropped before or after the sorter, or a panic raised by the input iterator at item j, a panic raised by the comparator at its m-th call, or sort_by returning an error (descriptor limit lowered mid-sort); listing compared before build, after build, during the sort and after the drops; /proc/self/fd compared before build, during the sort and when sort_by has returned; a few sorts of records owning heap data (0.5-3 KiB strings, runs of 1-12 MiB). Non-trivial: the during-snapshot was taken with >= 1 chunk created. Distinct = distinct input token sequence.",
+        observable: "entries created under the configured directory by build(), during sort_by (top level, inside the temporary directory), after the drops (new and missing entries), entries created under the other temporary directory, descriptors opened during the sort on files (linked or already unlinked) outside the configured directory, result of sort_by",
         gen, exec, shrink, child: Some(child),
     }
 }
